@@ -195,4 +195,18 @@ func Run(try func(string, func() string)) {
 			}
 		}
 	}
+	for _, m := range []int{0, 1, 4, 8} {
+		for _, vals := range [][]int{{}, {5}, {5, 6, 7}, {1, 2, 3, 4}, {9, 9, 9, 9, 9, 9, 9, 9}} {
+			for _, seed := range []uint64{0, 5, 1<<64 - 3} {
+				for _, step := range []uint64{0, 1, 3} {
+					for _, want := range []int{3, 9} {
+						try(fmt.Sprintf("ringScript %d %v %d %d %d", m, vals, seed, step, want), func() string {
+							a, b, c := ringScript(m, vals, seed, step, want)
+							return fmt.Sprint(a, b, c)
+						})
+					}
+				}
+			}
+		}
+	}
 }
